@@ -73,6 +73,18 @@ func (e *Exec) globalCell(g *ssa.Global) *Value {
 	var v Value
 	if e.P.isRepoPkg(g.Pkg) {
 		v = e.zero(T)
+	} else if g.Pkg.Pkg.Path() == "time" && (g.Name() == "Local" || g.Name() == "UTC") {
+		// the two well-known *time.Location values: opaque singletons recognised by Time.In
+		if e.timeLocs == nil {
+			e.timeLocs = map[string]*Value{}
+		}
+		lc := e.timeLocs[g.Name()]
+		if lc == nil {
+			lc = new(Value)
+			*lc = StructV{e.ctx.Const(64, 0)}
+			e.timeLocs[g.Name()] = lc
+		}
+		v = PtrV{cell: lc}
 	} else if types.Identical(T, e.P.errorType) {
 		// sentinel error of a dependency (io.EOF, context.Canceled, ...):
 		// a distinct non-nil opaque error object
